@@ -302,6 +302,10 @@ func (fr *frame) invoke(st *state, c *ssa.CallCommon, instr ssa.Instruction, pos
 	anchor := fr.anchorText(pos, "call")
 	if fr.sweepOn() {
 		fr.oblige(st, "nil", anchor, pos, fmt.Sprintf("(not (= (vtag %s) 0))", recv), "method call on nil interface")
+		// a nil pointer inside a non-nil interface: calling a value-receiver method through it panics in the
+		// call instruction itself (runtime wrapper), before any user code runs
+		e.u.global("(declare-fun kindof (Int) Int)")
+		fr.oblige(st, "nilrecv", anchor, pos, fmt.Sprintf("(not (and (= (kindof (vtag %s)) 22) (= (vpay %s) 0)))", recv, recv), "method call through a typed nil pointer")
 	}
 	// contract keyed by interface method: iface:pkg.Iface.Method
 	var ikey string
@@ -461,10 +465,12 @@ func (fr *frame) builtin(st *state, b *ssa.Builtin, c *ssa.CallCommon, instr ssa
 			return []string{sc.define("len", "Int", app("sllen", args[0]))}
 		default:
 			if _, ok := c.Args[0].Type().Underlying().(*types.Map); ok {
-				u.global("(declare-fun maplen (Int) Int)")
-				// abstract: length of a map (non-negative); content relation not modelled
-				r := sc.declare("maplen", "Int")
-				sc.assume(fmt.Sprintf("(>= %s 0)", r))
+				// the length of a map is a function of its key set (cardinality, assumed < 2^30)
+				md, _, ks, _ := fc.e.mapKeys(c.Args[0].Type())
+				fn := "maplen_" + sanitize(ks)
+				u.global(fmt.Sprintf("(declare-fun %s ((Array %s Bool)) Int)", fn, ks))
+				r := sc.define("maplen", "Int", fmt.Sprintf("(%s (select %s %s))", fn, fc.hget(st, md), args[0]))
+				sc.assume(fmt.Sprintf("(and (>= %s 0) (< %s 1073741824) (=> (= %s 0) (= %s 0)))", r, r, args[0], r))
 				return []string{r}
 			}
 		}
